@@ -11,3 +11,11 @@ pub assume_specification<T, U, F: FnOnce(T) -> U> [std::option::Option::<T>::map
     requires o is Some ==> f.requires((o->0,)),
     ensures match o { None => r == default, Some(x) => f.ensures((x,), r) };
 
+
+// Rc::clone returns a pointer to the same (immutable) value.  vstd specifies `<Rc<T> as Clone>::clone` (`res == *a`) but does not
+// connect it to the `cloned` predicate that the specification of `Option::<Rc<T>>::clone` is stated with; this lemma restates it.
+#[verifier::external_body]
+pub proof fn lemma_rc_cloned<T>(a: Rc<T>, b: Rc<T>)
+    requires cloned::<Rc<T>>(a, b)
+    ensures a == b
+{}
